@@ -25,6 +25,8 @@ def rand_dt(rng, kind=None):
     from icalendar.timezone import tzp
     kind = kind or rng.choice(['date', 'naive', 'utc', 'zoned'])
     y, mo, d = rng.randint(1971, 2036), rng.randint(1, 12), rng.randint(1, 28)
+    if kind in ('date', 'naive') and rng.random() < 0.08:
+        y = rng.choice([1, 9, 99, 100, 999, 1000, 9999])   # years that need zero padding / the range ends
     if kind == 'date':
         return date(y, mo, d)
     dt = datetime(y, mo, d, rng.randint(0, 23), rng.randint(0, 59), rng.randint(0, 59))
